@@ -3,6 +3,7 @@ import RSV.Driver.Fast
 import RSV.Driver.Tables
 import RSV.Driver.StreamOps
 import RSV.Driver.ApiOps
+import RSV.Driver.LeoOps
 import RSV.Model.Builders
 import RSV.Model.Cert
 import RSV.Model.Codec
@@ -128,6 +129,14 @@ def opEnc (args : List String) : String :=
   | [fam, _opts, ds, ps, szs, seeds] =>
     match ds.toNat?, ps.toNat?, szs.toNat?, seeds.toNat? with
     | some d, some p, some size, some seed =>
+      if fam == "leo8" || fam == "leo16" then
+        (match leoAdmissible fam d p with
+         | some e => s!"err {e}"
+         | none =>
+           if size = 0 then "err ShardNoData" else if size % 64 ≠ 0 then "err InvalidShardSize" else
+           let data := mkData d size (UInt64.ofNat seed)
+           let par := leoEncodeBytes fam d p data
+           s!"ok {joinSp ((data ++ par).toList.map fun b => hashOpt (some b))} | m=-") else
       if size = 0 then "err ShardNoData" else
       if p = 0 then
         if d = 0 then "err InvShardNum" else
@@ -151,12 +160,55 @@ def parseMode (mode : String) (req : List Nat) (d p : Nat) : Option ReconMode :=
   | "someT" => some (.some ((List.range (d + p)).map fun i => req.contains i) true)
   | _ => none
 
+/-- error class a Reconstruct* call must return as a function of the presence pattern (L0) -/
+def reconErrClass (leo : Bool) (d p size : Nat) (mode : ReconMode) (E : List Nat) : String :=
+  let present : Fin (d + p) → Bool := fun i => !E.contains i.val
+  if (List.finRange (d + p)).all (fun i => !present i) then "ShardNoData" else
+  -- Leopard ignores the contents of the `required` mask: full-length mask = recover all, else data only
+  let mode' : ReconMode := if leo then (match mode with
+      | .some _ full => if full then .all else .dataOnly
+      | m => m) else mode
+  match reconShape d p present mode' with
+  | .unchanged => "nil"
+  | .tooFew => "TooFewShards"
+  | .fill _ => if leo && size % 64 ≠ 0 then "InvalidShardSize" else "nil"
+
 -- rec <fam> <opts> <d> <p> <size> <seed> <mode> <E> <req> <missform>
 def opRec (args : List String) : String :=
   match args with
   | [fam, _opts, ds, ps, szs, seeds, modes, Es, reqs, _form] =>
     match ds.toNat?, ps.toNat?, szs.toNat?, seeds.toNat? with
     | some d, some p, some size, some seed =>
+      if fam == "leo8" || fam == "leo16" then
+        (match leoAdmissible fam d p, parseMode modes (parseList reqs) d p with
+         | some e, _ => s!"err {e}"
+         | _, none => "bad-op"
+         | none, some mode =>
+           if size % 64 ≠ 0 || size = 0 then "err(encode) InvalidShardSize" else
+           let data := mkData d size (UInt64.ofNat seed)
+           let all := data ++ leoEncodeBytes fam d p data
+           let E := parseList Es
+           let present : Fin (d + p) → Bool := fun i => !E.contains i.val
+           let cls := reconErrClass true d p size mode E
+           let showSh (f : Fin (d + p) → Option ByteArray) : String := joinSp ((List.finRange (d + p)).map fun i => hashOpt (f i))
+           if cls != "nil" then s!"err {cls} {showSh fun i => if present i then some all[i.val]! else none} | l1=-"
+           else
+             let recoverAll := match mode with | .all => true | .dataOnly => false | .some _ full => full
+             let mode' : ReconMode := if recoverAll then .all else .dataOnly
+             let l0 := match reconShape d p present mode' with
+               | .fill filled => showSh fun i => if present i || filled.getD i.val false then some all[i.val]! else none
+               | _ => showSh fun i => if present i then some all[i.val]! else none
+             -- L1: the schedule model, for small transforms
+             let n := Leo.ceilPow2 (Leo.ceilPow2 p + d)
+             let l1 := if n * size ≤ 70000 then
+                 let sh : Array ByteArray := Array.ofFn fun i : Fin (d + p) => if present i then all[i.val]! else ByteArray.empty
+                 let out := leoReconBytes fam d p sh size recoverAll
+                 let res := match reconShape d p present mode' with
+                   | .fill _ => showSh fun i => if present i then some all[i.val]! else out[i.val]!
+                   | _ => showSh fun i => if present i then some all[i.val]! else none
+                 (if res == l0 then "1" else "0")
+               else "-"
+             s!"ok {l0} | l1={l1}") else
       match famMatrix fam d p, parseMode modes (parseList reqs) d p with
       | .error e, _ => s!"err {e}"
       | _, none => "bad-op"
@@ -200,6 +252,17 @@ def opVer (args : List String) : String :=
   | [fam, _opts, ds, ps, szs, seeds, fss, fos, dls] =>
     match ds.toNat?, ps.toNat?, szs.toNat?, seeds.toNat?, fss.toInt?, fos.toNat?, dls.toNat? with
     | some d, some p, some size, some seed, some fs, some fo, some delta =>
+      if fam == "leo8" || fam == "leo16" then
+        (match leoAdmissible fam d p with
+         | some e => s!"err {e}"
+         | none =>
+           if size % 64 ≠ 0 || size = 0 then "err(encode) InvalidShardSize" else
+           let data := mkData d size (UInt64.ofNat seed)
+           let all := data ++ leoEncodeBytes fam d p data
+           let all' := if fs < 0 then all else all.modify fs.toNat fun b => b.set! fo ((b.get! fo) ^^^ UInt8.ofNat delta)
+           let parNew := leoEncodeBytes fam d p (all'.extract 0 d)
+           let ok := (parNew.toList.map (·.toList)) == ((all'.extract d (d + p)).toList.map (·.toList))
+           s!"ok {ok} | m=-") else
       if p = 0 then "ok true | m=-" else
       match famMatrix fam d p with
       | .error e => s!"err {e}"
@@ -222,6 +285,7 @@ def opGen (args : List String) : String :=
   | fam :: ds :: ps :: rest =>
     match ds.toNat?, ps.toNat? with
     | some d, some p =>
+      if fam == "leo8" || fam == "leo16" then leoGenOp fam d p (rest == ["dump"]) else
       match genMatrix fam d p with
       | .error e => s!"err {e}"
       | .ok o =>
@@ -353,19 +417,6 @@ def opJoin (args : List String) : String :=
           s!"ok {hex64 h} {out.length} | l0={l0ok}"
     | _, _, _, _, _, _ => "bad-op"
   | _ => "bad-op"
-
-/-- error class a Reconstruct* call must return as a function of the presence pattern (L0) -/
-def reconErrClass (leo : Bool) (d p size : Nat) (mode : ReconMode) (E : List Nat) : String :=
-  let present : Fin (d + p) → Bool := fun i => !E.contains i.val
-  if (List.finRange (d + p)).all (fun i => !present i) then "ShardNoData" else
-  -- Leopard ignores the contents of the `required` mask: full-length mask = recover all, else data only
-  let mode' : ReconMode := if leo then (match mode with
-      | .some _ full => if full then .all else .dataOnly
-      | m => m) else mode
-  match reconShape d p present mode' with
-  | .unchanged => "nil"
-  | .tooFew => "TooFewShards"
-  | .fill _ => if leo && size % 64 ≠ 0 then "InvalidShardSize" else "nil"
 
 -- hist <fam> <opts> <d> <p> ; sub ; sub …   (every answer: error class, same as fresh, correct bytes)
 def opHist (args : List String) : String :=
